@@ -13,8 +13,8 @@ import (
 	"google.golang.org/grpc"
 	"google.golang.org/grpc/connectivity"
 
-	"github.com/GoogleCloudPlatform/grpc-gcp-go/grpcgcp/multiendpoint"
 	pb "github.com/GoogleCloudPlatform/grpc-gcp-go/grpcgcp/grpc_gcp"
+	"github.com/GoogleCloudPlatform/grpc-gcp-go/grpcgcp/multiendpoint"
 
 	"verif/engine/vgrpc"
 	"verif/engine/vsched"
@@ -128,9 +128,9 @@ type gmeCfg struct {
 	Name     string
 	DialFail bool
 	Init     int // index into the menu
-	R, D   time.Duration
-	Prop   string
-	Closed bool
+	R, D     time.Duration
+	Prop     string
+	Closed   bool
 }
 
 type gmeWorld struct {
@@ -672,4 +672,134 @@ func checkGME(c *vsched.RunCtx, prop string) {
 	}
 	c.Assume("grpc.ClientConn/Dial replaced by a fake pool (GetState, WaitForStateChange, Close, Invoke, NewStream) in gcp_multiendpoint.go only; inner multi-endpoints are the real ones with recovery timeout 0 and switching delay 0",
 		"endpoints {e1,e2,e3}, multi-endpoint names {d,r,n}; dial failure is injected for e3; 'bounded time' = by quiescence of the monitor threads")
+}
+
+// ---- concurrency driver: RPCs || UpdateMultiEndpoints || pool state changes || monitors ----
+
+func gmeDriverBody(variant int) func(s *vsched.Sched) *vsched.ExecOutcome {
+	return func(s *vsched.Sched) *vsched.ExecOutcome {
+		menu := gmeMenu(false)
+		s.Frozen = true
+		w := newGMEWorld(s, gmeCfg{Name: "gme-update", Init: 3, Prop: "C10"}, menu) // d:[1,2] r:[2,3]
+		if !w.poisoned {
+			w.Do("poolState(e1,READY)")
+		}
+		s.Frozen = false
+		var viol []vsched.Violation
+		add := func(prop, rule, cause, msg string) {
+			viol = append(viol, vsched.Violation{Property: prop, Rule: rule, Sig: rule + " [driver gme-update] " + cause, Msg: msg})
+		}
+		if w.poisoned {
+			return &vsched.ExecOutcome{Outcome: "setup-failed", Violations: w.Take()}
+		}
+		targets := [][]int{{6}, {0}, {4, 1}}[variant] // updates applied by the updater thread
+		updDone := false
+		var lateClosed []string
+		rpc := func(name string) func() {
+			return func() {
+				ctx := context.Background()
+				if name != "" {
+					ctx = NewMEContext(ctx, name)
+				}
+				for i := 0; i < 2; i++ {
+					after := updDone
+					n := map[*vgrpc.ClientConn]int{}
+					for _, cc := range vgrpc.Dialed {
+						n[cc] = len(cc.Calls)
+					}
+					w.gme.Invoke(ctx, "/svc/m", nil, nil)
+					if after {
+						for _, cc := range vgrpc.Dialed {
+							if len(cc.Calls) > n[cc] && cc.Calls[len(cc.Calls)-1].Closed {
+								lateClosed = append(lateClosed, cc.Target)
+							}
+						}
+					}
+				}
+			}
+		}
+		ths := []*vsched.Thread{
+			s.Go("rpcDefault", rpc("")),
+			s.Go("rpcNamed", rpc("r")),
+			s.Go("updater", func() {
+				for _, t := range targets {
+					w.gme.UpdateMultiEndpoints(menu[t].build(0, 0, w.dial))
+				}
+				updDone = true
+			}),
+			s.Go("env", func() {
+				if cc := w.open["e2"]; cc != nil {
+					cc.SetState(connectivity.Ready)
+				}
+				if cc := w.open["e1"]; cc != nil {
+					cc.SetState(connectivity.TransientFailure)
+				}
+			}),
+		}
+		s.WaitQuiescent()
+		names := []string{"rpcDefault", "rpcNamed", "updater", "env"}
+		var out []string
+		for i, th := range ths {
+			switch {
+			case th.PanicVal != nil:
+				add("C16", "C16.A2", fmt.Sprintf("panic in %s (thread %s)", th.PanicSite, names[i]), fmt.Sprintf("%v\n%s", th.PanicVal, trimStack(th.PanicStack)))
+				out = append(out, names[i]+":panic")
+			case !th.Done():
+				add("C16", "C16.A2", "thread "+names[i]+" blocked forever", th.Desc)
+				out = append(out, names[i]+":blocked")
+			default:
+				out = append(out, names[i]+":ok")
+			}
+		}
+		for _, t := range lateClosed {
+			add("C16", "C16.A2", "RPC started after the update returned reached a closed pool", t)
+		}
+		// monitors of closed pools must have terminated
+		open := 0
+		for _, cc := range vgrpc.Dialed {
+			if !cc.IsClosed() {
+				open++
+			}
+		}
+		if alive := len(s.Alive()); alive != open && len(viol) == 0 {
+			add("C15", "C15.G2", "monitors differ from open pools after concurrent update", fmt.Sprintf("%d threads alive, %d pools open", alive, open))
+		}
+		o := strings.Join(out, ",")
+		var calls []string
+		for _, cc := range vgrpc.Dialed {
+			calls = append(calls, fmt.Sprintf("%s:%d", cc.Target, len(cc.Calls)))
+		}
+		return &vsched.ExecOutcome{Outcome: o + "|" + strings.Join(calls, ","), StateKey: o + "|" + strings.Join(calls, ",") + fmt.Sprint(open), Nontrivial: true, Violations: viol}
+	}
+}
+
+func runGMEDrivers(c *vsched.RunCtx, race bool) {
+	pre, dev := 2, 1
+	if c.Thorough() {
+		pre = 3
+	}
+	for v := 0; v < 3; v++ {
+		name := fmt.Sprintf("variant=%d", v)
+		if c.Replay != nil {
+			if c.Replay.Harness == "sched:gme-update" && c.Replay.Config == name {
+				out, s := vsched.RunOnce(vsched.ExploreOpts{Race: race}, c.Replay.Choices, true, gmeDriverBody(v))
+				rr := &vsched.ReplayResult{Trace: s.Events}
+				for _, x := range out.Violations {
+					if x.Sig == c.Replay.Sig {
+						rr.Reproduced, rr.Msg = true, x.Msg
+					}
+				}
+				for sig := range s.Races {
+					if "race: "+sig == c.Replay.Sig {
+						rr.Reproduced, rr.Msg = true, sig
+					}
+				}
+				c.SetReplay(rr)
+			}
+			continue
+		}
+		res := vsched.Explore(vsched.ExploreOpts{Name: "sched:gme-update", Config: name, PreemptBound: pre, DevBound: dev, Race: race,
+			Deadline: c.Deadline, Shard: c.Shard, NShards: c.NShards}, gmeDriverBody(v))
+		c.Add(res)
+	}
 }
